@@ -36,10 +36,10 @@ def parse_races(out):
     return races
 
 
-def workload(ctx, name, run, env, timeout=1800):
+def workload(ctx, name, run, env, timeout=1800, pkg="", files=None, tags="verif"):
     e = dict(env)
     e["VERIF_OUT"] = ctx.path("out_%s.ndjson" % name)
-    rc, out = vlib.go_test(ctx, "", FILES, run, env=e, race=True, timeout=timeout)
+    rc, out = vlib.go_test(ctx, pkg, files or FILES, run, env=e, race=True, timeout=timeout, tags=tags)
     races = parse_races(out)
     if rc != 0 and not races:
         raise vlib.MachineryError("workload %s failed without a race report:\n%s" % (name, out[-3000:]))
@@ -72,10 +72,16 @@ def run(ctx):
              ("stream", "TestVerifStream$", {"VERIF_SCEN": sp3}),
              ("writing", "TestVerifWC$", {"VERIF_NRANDOM": 15 if q else 200}),
              ("status", "TestVerifStatusThread$", {"VERIF_REAL_CLIENTUPDATER": 1})]
+    # the file writers behind a disk that stalls (full write queue): the thread that hands records over and the writer
+    # goroutine of the file must share the buffered writer only through the queue
+    import c07 as _c07
+    loads.append(("stalled-disk-asyncbufio", "TestVerifC07$", {"VERIF_NRANDOM": 40 if q else 400, "_pkg": "asyncbufio", "_files": _c07.H_ASYNC}))
     events = []
     total = 0
     for name, run_, env in loads:
-        races, hangs = workload(ctx, name, run_, env)
+        env = dict(env)
+        pkg, files = env.pop("_pkg", ""), env.pop("_files", None)
+        races, hangs = workload(ctx, name, run_, env, pkg=pkg, files=files, tags="" if pkg else "verif")
         total += 1
         events.append({"ev": "Workload", "name": name, "races": len(races), "hangs": len(hangs)})
         vlib.add_case(ctx, [name, env.get("VERIF_NRANDOM")], nontrivial=True)
